@@ -32,25 +32,52 @@ def _shift_places(stmts, dx: int):
     return out
 
 
+def _far_program(ch: Chooser):
+    """One input driving 2-4 lamps placed far apart: long wires, relay poles, no shared-source
+    pairs of combinators.  Both P and Q draw their signal from the same small pool on purpose."""
+    t = ch.pick(["signal-A", "signal-A", "signal-B", "iron-plate"])
+    v = ch.i32_biased(-20, 20)
+    stmts = [["decl", "Signal", "a", ["siglit", t, ["lit", v, 10]]]]
+    thr = set()
+    used = set()
+    for k in range(ch.rint(2, 4)):
+        for _t in range(20):
+            x, y = ch.rint(-12, 34), ch.rint(-30, 30)
+            if (x, y) not in used:
+                break
+        used.add((x, y))
+        c = ch.i32_biased(-20, 20)
+        thr.add(c)
+        stmts.append(["place", f"l{k}", "small-lamp", ["lit", x, 10], ["lit", y, 10], None])
+        stmts.append(["enable", f"l{k}", ["bin", ch.pick(lang.CMP_OPS), ["var", "a"], ["lit", c, 10]]])
+    inputs = [{"name": "a", "type": t, "init": v, "dom": "small"}]
+    return {"stmts": stmts, "inputs": inputs, "history": gen.gen_history(ch, inputs, thr, ch.rint(1, 4)),
+            "containers": []}
+
+
 def _sub(ch: Chooser, tier: str, which: str):
-    fam = ch.weighted([(4, "c01"), (2, "c03"), (2, "c05"), (3, "c06")])
-    for _ in range(10):
-        case = FAMILIES[fam].gen_case(ch, tier)
-        if fam == "c06" and case.get("family") == "loader":
-            continue
-        break
+    fam = ch.weighted([(4, "c01"), (2, "c03"), (2, "c05"), (3, "c06"), (4, "far")])
+    if fam == "far":
+        case = _far_program(ch)
+    else:
+        for _ in range(10):
+            case = FAMILIES[fam].gen_case(ch, tier)
+            if fam == "c06" and case.get("family") == "loader":
+                continue
+            break
     case["family"] = fam
     if which == "Q":
         names = declared_names(case["stmts"])
         mp = {n: "q_" + n for n in names}
-        case["stmts"] = _shift_places(rename(case["stmts"], mp), SHIFT)
+        dx = 3 if fam == "far" else SHIFT
+        case["stmts"] = _shift_places(rename(case["stmts"], mp), dx)
         for i in case["inputs"]:
             i["name"] = mp.get(i["name"], i["name"])
         case["history"] = [{(("__emit__" + mp.get(k[8:], k[8:])) if k.startswith("__emit__") else mp.get(k, k)): v
                             for k, v in st.items()} for st in case.get("history") or []]
         for c in case.get("containers") or []:
             c["name"] = mp.get(c["name"], c["name"])
-            c["x"] += SHIFT
+            c["x"] += dx
         for c in case.get("cells") or []:
             c["mem"], c["reader"] = mp.get(c["mem"], c["mem"]), mp.get(c["reader"], c["reader"])
     return case
@@ -145,10 +172,30 @@ def run_case(case: dict) -> dict:
         excl = set(case.get("exclude") or [])
         tw = Twin([wc, wp, wq])
         memory = P["family"] in ("c03", "c05") or Q["family"] in ("c03", "c05")
-        if "crosstalk" in excl and any(has_known_structure(w, o, memory) for w, o in zip(tw.ws, tw.obs)):
-            res["status"] = "excluded"
-            res["excluded_by"] = "crosstalk"
-            return res
+        if "crosstalk" in excl:
+            # only crosstalk INSIDE one program is the known finding; a site in the combined build
+            # whose emitters come from both programs is exactly what this property forbids
+            if has_known_structure(wp, tw.obs[1], memory) or has_known_structure(wq, tw.obs[2], memory):
+                res["status"] = "excluded"
+                res["excluded_by"] = "crosstalk"
+                return res
+            from ..diagnose import crosstalk_sites
+
+            labels = {n: k for k, v in tw.obs[0].inputs.items() for n in v}
+            intra = False
+            for (_reader, _sig, who) in crosstalk_sites(wc, [], labels, memory_ok=memory):
+                owners = set()
+                for n in who:
+                    d = wc.ents[n].desc or ""
+                    owners.add("Q" if (" q_" in d or "computing q_" in d or d.startswith("q_") or "mem:mem_q_" in d) else "P")
+                if len(owners) == 1:
+                    intra = True
+                else:
+                    probe(res, "cross_program_site_kept")
+            if intra:
+                res["status"] = "excluded"
+                res["excluded_by"] = "crosstalk"
+                return res
         if "same-source-two-roles" in excl:
             from .c02 import same_source_two_roles
 
